@@ -34,6 +34,7 @@ VQE = "tangelo/algorithms/variational/vqe_solver.py"
 UCCSD = "tangelo/toolboxes/ansatz_generator/uccsd.py"
 RDMS = "tangelo/toolboxes/molecular_computation/rdms.py"
 HEA = "tangelo/toolboxes/ansatz_generator/hea.py"
+ISP = "tangelo/toolboxes/molecular_computation/integral_solver_pyscf.py"
 
 FIRE = [
     # ---- C11
@@ -98,8 +99,16 @@ FIRE = [
     ("s2-exchange-coefficient", "C12", [(FO, "                                 [((up[0], 1), (dn[1], 0), (dn2[0], 1), (up2[1], 0)), 1/2],", "                                 [((up[0], 1), (dn[1], 0), (dn2[0], 1), (up2[1], 0)), 1/4],")], "K9.symmetry-operators"),
     ("sz-sign", "C12", [(FO, "[((up[0], 1), (up[1], 0)), 1/2], [((dn[0], 1), (dn[1], 0)), -1/2]", "[((up[0], 1), (up[1], 0)), 1/2], [((dn[0], 1), (dn[1], 0)), 1/2]")], "K9.symmetry-operators"),
     # ---- C04
+    ("uhf-beta-core-in-alpha-orbitals", "C04", [(ISP, "        hpq.append(mo_b.T.dot(hcore).dot(mo_b))", "        hpq.append(mo_a.T.dot(hcore).dot(mo_b))")], "K10"),
+    ("uhf-active-container-order", "C04", [(MOL, "        two_body_integrals_new = [TwInt_aa, TwInt_ab, TwInt_bb]", "        two_body_integrals_new = [TwInt_aa, TwInt_bb, TwInt_ab]")], "K10.block-layout"),
+    ("uhf-mixed-block-not-halved", "C04", [(MOL, "two_body_coefficients[up_index(p), down_index(q), down_index(r), up_index(s)] = (two_body_integrals[1][p, q, r, s] / 2.)", "two_body_coefficients[up_index(p), down_index(q), down_index(r), up_index(s)] = two_body_integrals[1][p, q, r, s]")], "K9.interaction-operator"),
+    ("uhf-register-sum-of-orbitals", "C04", [(MOL, "        n_qubits = 2*max(n_orb_a, n_orb_b)", "        n_qubits = n_orb_a + n_orb_b")], "K9.interaction-operator"),
+    ("rhf-two-body-not-halved", "C04", [(MOL, "reps.InteractionOperator(core_constant, one_body_coefficients, 1 / 2 * two_body_coefficients)", "reps.InteractionOperator(core_constant, one_body_coefficients, two_body_coefficients)")], "K9.interaction-operator"),
     ("uhf-block-index-swapped", "C04", [(MOL, "                one_body_integrals_new_bb[u, v] += two_body_integrals[1][i, u, v, i]  # this is AlphaBeta", "                one_body_integrals_new_bb[u, v] += two_body_integrals[1][u, i, i, v]  # this is AlphaBeta")], "K10.spin-sorts"),
     # ---- C05 / C03
+    ("mapping-name-case-sensitive", "C03", [(MT, "    if mapping.upper() not in available_mappings:", "    if mapping not in available_mappings:")], "K3.mapping-dispatch"),
+    ("vector-mapping-name-case-sensitive", "C05", [(SV, "    if mapping.upper() not in available_mappings:", "    if mapping not in available_mappings:")], "K3"),
+    ("odd-order-three-accepted", "C06", [(AU, "    if trotter_order > 1 and trotter_order % 2 != 0:", "    if trotter_order > 3 and trotter_order % 2 != 0:")], "K9.suzuki"),
     ("beta-fill-slice", "C05", [(SV, "        vector[1:2*n_beta+1:2] = 1", "        vector[1:2*n_beta:2] = 1")], "K9.alpha-beta"),
     ("scbk-state-deletes-wrong-qubit", "C05", [(SV, "    vector_scbk = np.delete(vector_bk, n_spinorbitals//2-1)", "    vector_scbk = np.delete(vector_bk, n_spinorbitals//2)")], "K8.scbk-qubits"),
     ("scbk-parity-from-beta", "C03", [(SCBK, "    parity_middle_orb = (-1)**n_alpha", "    parity_middle_orb = (-1)**(n_electrons - n_alpha)")], "K8.scbk-qubits"),
@@ -139,6 +148,13 @@ SILENT = [
     ("skip-threshold-spelling", "C06", [(AU, "            if variational or abs(np.real(coef)) > 1.e-10:", "            if variational or not abs(np.real(coef)) <= 1.e-10:")]),
     ("uccsd-rebuild-keys-inequality", "C07", [(UCCSD, "        if set(self.pauli_to_angles_mapping.keys()) != set(qubit_op.terms.keys()):", "        if qubit_op.terms.keys() != self.pauli_to_angles_mapping.keys():")]),
     ("collapse-counter-int64", "C16", [(MULTI, "np.linspace(0, len(operator) - 1, len(operator), dtype=int).reshape", "np.linspace(0, len(operator) - 1, len(operator), dtype=np.int64).reshape")]),
+    ("mapping-membership-spelling", "C03", [(MT, "    if mapping.upper() not in available_mappings:", "    if not (mapping.upper() in available_mappings):")]),
+    ("odd-order-guard-spelling", "C06", [(AU, "    if trotter_order > 1 and trotter_order % 2 != 0:", "    if trotter_order % 2 == 1 and trotter_order != 1:")]),
+    ("uhf-core-matmul-spelling", "C04", [(ISP, "        hpq.append(mo_a.T.dot(hcore).dot(mo_a))", "        hpq.append(mo_a.T @ hcore @ mo_a)")]),
+    ("uhf-container-renamed-locals", "C04", [(MOL, "        two_body_integrals_new = [TwInt_aa, TwInt_ab, TwInt_bb]", "        blocks = (TwInt_aa, TwInt_ab, TwInt_bb)\n        two_body_integrals_new = [blocks[0], blocks[1], blocks[2]]")]),
+    ("uhf-half-spelling", "C04", [(MOL, "two_body_coefficients[up_index(p), down_index(q), down_index(r), up_index(s)] = (two_body_integrals[1][p, q, r, s] / 2.)", "two_body_coefficients[up_index(p), down_index(q), down_index(r), up_index(s)] = 0.5 * two_body_integrals[1][p, q, r, s]")]),
+    ("uhf-register-spelling", "C04", [(MOL, "        n_qubits = 2*max(n_orb_a, n_orb_b)", "        n_qubits = max(2*n_orb_a, 2*n_orb_b)")]),
+    ("rhf-half-spelling", "C04", [(MOL, "reps.InteractionOperator(core_constant, one_body_coefficients, 1 / 2 * two_body_coefficients)", "reps.InteractionOperator(core_constant, one_body_coefficients, 0.5 * two_body_coefficients)")]),
     ("angle-law-spelling", "C06", [(AU, "    angle = 2.*coef if coef >= 0. else 4*np.pi+2*coef", "    angle = 2.*coef + (0. if coef >= 0. else 4*np.pi)")]),
     ("cirq-branches-reordered", "C01", [(TCIRQ, '        elif gate_name in {"SWAP"}:\n            target_circuit.append(GATE_CIRQ[gate_name](qubit_list[gate.target[0]], qubit_list[gate.target[1]]))\n        elif gate_name in {"CSWAP"}:\n            next_gate = GATE_CIRQ[gate_name].controlled(num_controls)\n            target_circuit.append(next_gate(*control_list, qubit_list[gate.target[0]], qubit_list[gate.target[1]]))\n',
                                          '        elif gate_name in {"CSWAP"}:\n            next_gate = GATE_CIRQ[gate_name].controlled(num_controls)\n            target_circuit.append(next_gate(*control_list, qubit_list[gate.target[0]], qubit_list[gate.target[1]]))\n        elif gate_name in {"SWAP"}:\n            target_circuit.append(GATE_CIRQ[gate_name](qubit_list[gate.target[0]], qubit_list[gate.target[1]]))\n')]),
